@@ -131,9 +131,23 @@ def worker_main(argv):
                 r['obs']['public_calls_scanned_for_nan'] = r['obs'].get('public_calls_scanned_for_nan', 0) + ncalls
                 for msg in sorted(set(bad))[:3]:
                     r['violations'].append(vio('nonfinite_output', msg))
-        except Exception:
-            r = dict(violations=[], obs={}, nontrivial=False,
-                     harness_error=traceback.format_exc())
+        except Exception as e:
+            # An exception that propagated THROUGH pyins code means the code under test refused an input of the property's domain (the
+            # generators only produce such inputs, and the unchanged tree accepts all of them): that is a verdict.  Anything else is a bug
+            # of the harness itself and stays inconclusive.
+            frames = traceback.extract_tb(e.__traceback__)
+            inside = [fr for fr in frames if os.path.abspath(fr.filename).startswith(os.path.join(os.path.abspath(REPO), 'pyins') + os.sep)
+                      and os.sep + 'tests' + os.sep not in fr.filename]
+            if isinstance(e, Violation):
+                r = dict(violations=[e.as_dict()], obs={}, nontrivial=True)
+            elif inside:
+                fr = inside[-1]
+                r = dict(violations=[vio('exception', f'{type(e).__name__}: {e} raised through {os.path.relpath(fr.filename, REPO)}:{fr.lineno} ({fr.name}) '
+                                         f'for an input of the property\'s domain', tb=traceback.format_exc()[-1500:])],
+                         obs={}, nontrivial=True)
+            else:
+                r = dict(violations=[], obs={}, nontrivial=False,
+                         harness_error=traceback.format_exc())
             if use_finite:
                 finite.drain()
         r['id'] = case.get('id')
